@@ -1,7 +1,8 @@
 #!/usr/bin/env python3
 """Replays a recorded counterexample: python3 gensym/replay.py evidence/replays/<file>.json
-Compiles the program with /repo's compiler, runs the API script against the generated module linked with /repo's
-runtime and evaluates the property's assertion on the dumped native state.  exit 1 = violation reproduces."""
+For the generated-code properties: compiles the recorded program with /repo's compiler, runs the API script(s) against the
+generated module linked with /repo's runtime and evaluates the property's assertion on the native run.
+exit 1 = the violation reproduces, 0 = it does not, 2 = cannot replay."""
 import json, os, sys, shutil
 import pipeline as P
 from pipeline import L, M, N, W
@@ -9,13 +10,19 @@ from pipeline import L, M, N, W
 
 def main():
     rec = json.load(open(sys.argv[1]))
+    if isinstance(rec, list):
+        # C08 / C11 / C16 / C17 / C18 / C19 write a list of self-describing records (inputs + how to run them)
+        for r in rec[:10]:
+            print(json.dumps(r, indent=1)[:3000])
+        print("these records are re-derived and re-confirmed natively by the check itself: bin/check <property> quick")
+        sys.exit(1)
     scratch = P.scratch_dir()
     exe, _ = P.build_compiler()
     src = os.path.join(scratch, "replay_src")
     out = os.path.join(scratch, "replay_out")
     shutil.rmtree(src, ignore_errors=True)
     os.makedirs(src)
-    name = rec["program"]
+    name = rec["program"].replace("_selfcomp", "")
     open(os.path.join(src, name + ".eql"), "w").write(rec["eql"])
     p = P.sh([exe, src, out])
     if p.returncode != 0:
@@ -25,9 +32,23 @@ def main():
     ctx, I, sch = su.fresh()
     h = N.NativeHarness(scratch, repo=P.REPO)
     h.add(name, su.rs_path, su.prog, sch)
-    kind = "struct" if rec["property"] == "C04" else "closed"
-    ok, obs = W.replay(su, sch, h, name, rec["script"], kind, su.rules)
-    print("script:", "; ".join(rec["script"]))
+    kind = rec.get("kind") or ("struct" if rec["property"] == "C04" else "closed")
+    script = rec["script"]
+    if kind == "selfcomp":
+        import selfcomp as SC
+        ok, obs = SC.replay(su, sch, h, name, (script["history_1"], script["history_2"]))
+        print("history 1:", "; ".join(script["history_1"]))
+        print("history 2:", "; ".join(script["history_2"]))
+    elif kind == "forced":
+        ok, obs = W.replay_forced(su, sch, h, name, script, rec["info"])
+    elif kind == "effects":
+        ok, obs = W.replay_effects(su, sch, h, name, script)
+    else:
+        if kind == "closed-resume":
+            kind = "closed"
+        ok, obs = W.replay(su, sch, h, name, script, kind, su.rules)
+    if kind != "selfcomp":
+        print("script:", "; ".join(script))
     print("reproduces:", ok)
     for o in obs[:10]:
         print("  ", o)
